@@ -33,7 +33,8 @@ LEVEL_TEXT = ("Exploration: all (tree, new root) pairs of small generated trees 
               " redirect_tree called positionally, by keyword and with defaults."
               " The C03 contract set is active during the workload: results of the two preceding calls are re-verified after every call."
               " Twins under custom column names; a 64-bit label column."
-              " Fragments hundredths of a micrometre from their attachment node at whole-brain coordinates (merge decided exactly); returned trees overwritten in place, then the same call again.")
+              " Fragments hundredths of a micrometre from their attachment node at whole-brain coordinates (merge decided exactly); returned trees overwritten in place, then the same call again."
+              " Every root-to-tip path of one tree in three taken as a path and reversed (PathToTree / PathReverser).")
 LEVEL_NOTE = ("Merge-or-link is decided only where the junction distance is clearly below (<5e-6) or "
               "above (>2e-5) the documented 1e-5; with translation requested and coordinates large "
               "enough for float32 residue to reach 1e-5 either outcome is accepted and counted.")
@@ -46,7 +47,7 @@ ASSUMPTIONS = [
     "B's columns that A lacks are dropped, A's columns that B lacks are zero-filled (documented)",
     "sibling order / node order of the result is free (tags decide)",
 ]
-REQUIRED = ["trees_with_64_bit_labels", "operations_repeated_after_result_was_overwritten", "merge_decided_exactly_at_large_coordinates", "operations_under_custom_column_names", "redirect_checked", "redirect_chained_checked", "cat_checked", "cat_merged",
+REQUIRED = ["trees_with_64_bit_labels", "paths_reversed", "operations_repeated_after_result_was_overwritten", "merge_decided_exactly_at_large_coordinates", "operations_under_custom_column_names", "redirect_checked", "redirect_chained_checked", "cat_checked", "cat_merged",
             "cat_linked", "cat_translate", "cat_no_translate", "cat_flag_as_numpy_bool_or_int",
             "size_sweep_cases", "redirect_positional_arguments", "tap_redirect_tree", "tap_cat_tree"]
 FLOOR = {"quick": 2500, "thorough": 300000}
@@ -412,12 +413,43 @@ def _exec_cat(ctx, case):
     return None
 
 
+def _exec_path_reverse(ctx, case):
+    """Re-rooting the simplest tree there is: every root-to-tip path of a tree, taken as a path
+    and reversed (PathReverser = PathToTree + redirect_tree at the far end)."""
+    from swcgeom.transforms.path import PathReverser, PathToTree
+
+    spec = G.spec_from_recipe(case["tree"])
+    tree = G.build(spec, frozen_ok=False)
+    rev = PathReverser()
+    for p in tree.get_paths()[:6]:
+        ids = [int(i) for i in p.origin_id()]
+        xyzr = np.array(p.xyzr(), copy=True)
+        try:
+            as_tree = PathToTree()(p)
+            q = rev(p)
+        except Exception as e:
+            return ctx.violation("op-raised", f"PathReverser on the path {ids[:8]} (of {len(ids)} "
+                                              f"nodes): {type(e).__name__}: {str(e)[:120]}", case)
+        ctx.count("paths_reversed")
+        if as_tree.number_of_nodes() != len(ids) or not np.array_equal(as_tree.xyzr(), xyzr) or \
+                not np.array_equal(as_tree.pid(), np.arange(-1, len(ids) - 1)):
+            return ctx.violation("nodes-changed", f"PathToTree of the path {ids[:8]} is not that "
+                                                  f"chain", case)
+        got = np.array(q.xyzr())
+        if got.shape != xyzr.shape or not np.array_equal(got, xyzr[::-1]):
+            return ctx.violation("edges-changed",
+                                 f"PathReverser on the path {ids[:8]}: the result does not run "
+                                 f"through the same points in the opposite order", case)
+
+
 def execute(ctx, case):
     try:
         with warnings.catch_warnings():
             warnings.simplefilter("ignore")
             if case["op"] == "redirect":
                 _exec_redirect(ctx, case)
+            elif case["op"] == "reverse-paths":
+                _exec_path_reverse(ctx, case)
             else:
                 _exec_cat(ctx, case)
     except Exception as e:
@@ -453,6 +485,10 @@ def _workload(ctx):
             if rng.random() < 0.35 and n > 1:
                 case["first"] = int(rng.integers(0, n))
             ctx.case(case, nontrivial=n >= 3 and v != 0, klass=f"redirect/{rc['shape']}")
+            execute(ctx, case)
+        if k % 3 == 0 and n >= 2:
+            case = {"op": "reverse-paths", "tree": rc}
+            ctx.case(case, nontrivial=n >= 3, klass="reverse-paths")
             execute(ctx, case)
         # concatenation
         rb = G.random_recipe(rng, max_n=G.size_ladder(ctx, k, 7, 20, 80),
